@@ -310,7 +310,7 @@ func init() {
 		ID:   "C02",
 		Desc: "decoder safety: no panic, bounded buffering, frame resynchronisation (server and client as receivers)",
 		Run:  runC02,
-		Quick: 64000, Thorough: 1500000, QuickSecs: 60, ThorSecs: 1500,
+		Quick: 64000, Thorough: 4500000, QuickSecs: 60, ThorSecs: 1500,
 		Rule:  "streams of 6-46 frames: valid requests from the C04 generator, 40% mutated (bit flips, type byte, size field in {0,1,6,7,8,msize-1,msize,msize+1,4MiB+-1,2^31,2^32-1,len+-1}, body truncated with consistent size, trailing bytes, 2- and 4-byte count/length fields blown up, random bytes, R-types, header-only), optionally before Tversion, optionally ending inside a frame; x segmentation (whole / random / single bytes); client as receiver: fake-server replies mutated the same way. Frames are fed one at a time with a run to quiescence in between. Oracle: independent three-valued classifier (refcodec): exact frames judged by the C04 session model and the backend call log (delivered values), malformed/unknown-type frames answered Rlerror with exactly size bytes consumed and no backend call, size<7 or >msize ends the connection without the body being read, trailing bytes either way; exactly one reply per well-delimited frame before any byte of the next; every Read buffer <= 4 MiB; no panic reaches the top of a goroutine.",
 		Assume: []string{"the tag of the Rlerror for an undecodable frame may be the frame's tag or NOTAG", "a mutated frame that is itself a valid message is judged as that message (reply and tag only)"},
 		Real:   []string{"p9 recv/decode paths (server and client)", "p9.Server", "p9.Client"},
